@@ -201,6 +201,28 @@ fn main() {
             std::fs::write(&args[3], serde_json::to_string(&out).unwrap()).unwrap();
             println!("{} sources", out.len());
         }
+        "jsonout" => {
+            // tsgv jsonout <dir> <graphs.ndjson> <out.ndjson>
+            exec::silence_panics();
+            let srcs = cases::load_sources(&args[2]);
+            let nodes = srcs[2].nodes();
+            let items = read_ndjson(&args[3]);
+            let out: Vec<J> = items.iter().map(|g| json!({"id": g["id"], "real": api::json_of(g, &srcs[2], &nodes)})).collect();
+            write_ndjson(&args[4], &out);
+            println!("{} graphs", out.len());
+        }
+        "libout" => {
+            // tsgv libout <dir> <in.ndjson> <out.ndjson>
+            exec::silence_panics();
+            let srcs = cases::load_sources(&args[2]);
+            let mut items = read_ndjson(&args[3]);
+            for it in items.iter_mut() {
+                let r = api::libout(it, &srcs);
+                it["lib"] = r;
+            }
+            write_ndjson(&args[4], &items);
+            println!("{} cases", items.len());
+        }
         "retabs" => {
             // tsgv retabs <pool.json> <out.json>: tables of every (regex, subject) of a pool (oracle: regex crate)
             let pool: J = serde_json::from_str(&std::fs::read_to_string(&args[2]).expect("pool")).expect("json");
